@@ -1261,8 +1261,7 @@ class Evaluator:
         return self.compare(_CMP_FUNCS[f.args[0]], args[0], args[1], n)      # jnp.greater_equal(a, b) is a >= b
       if f.args[0] in ('jax.numpy.where', 'jax.lax.select', 'numpy.where') and len(args) == 3 and not kwargs:
         c2, flipped = strip_negation(args[0])       # canonical polarity of array selects
-        if flipped:
-          args = [c2, args[2], args[1]]
+        args = [c2, args[2], args[1]] if flipped else [c2, args[1], args[2]]
       r = self.call_ext(f.args[0], args, kwargs, n, scope)
       if r is not None:
         return r
@@ -1686,7 +1685,7 @@ class Evaluator:
       if flipped:
         r_ = T('cond', c2, tb, ta, loc=self._loc(n) if n is not None else None)
       else:
-        r_ = T('cond', a[0], ta, tb, loc=self._loc(n) if n is not None else None)
+        r_ = T('cond', c2, ta, tb, loc=self._loc(n) if n is not None else None)
       self.cond_log.append((r_, self.cur_fq(), n))
       return r_
     if dotted in ('jax.lax.while_loop',) and len(a) == 3:
